@@ -168,7 +168,34 @@ class _Mat(T):
 Mat = _Mat()
 
 
+class _CMat(T):
+    """2-D complex ndarray: a pair (real part, imaginary part) of real matrices of one shape."""
+
+    def comps(self):
+        return Mat.comps() + Mat.comps()
+
+    def __repr__(self):
+        return "CMat"
+
+
+CMat = _CMat()
+
+
 # ----------------------------------------------------------------------------- values
+def sel(a, *idx):
+    """a[i][j]..: Select with eager beta-reduction (the numpy model builds arrays as lambdas; a redex handed to the solver costs a round
+    of quantifier instantiation per lambda, so it is reduced here) and constant-array folding"""
+    for i in idx:
+        i = to_z3num(i) if not is_z3(i) else i
+        if z3.is_quantifier(a) and a.is_lambda() and a.num_vars() == 1:
+            a = z3.substitute_vars(a.body(), i)
+        elif z3.is_app(a) and a.decl().kind() == z3.Z3_OP_CONST_ARRAY:
+            a = a.arg(0)
+        else:
+            a = z3.Select(a, i)
+    return a
+
+
 class ObjV:
     __slots__ = ("ref", "cls", "nullable", "exact")
 
@@ -197,7 +224,7 @@ class SeqV:
         self.elem, self.arrs, self.len, self.fresh = elem, list(arrs), length, fresh
 
     def at(self, i):
-        return unpack(self.elem, [z3.Select(a, i) for a in self.arrs])
+        return unpack(self.elem, [sel(a, i) for a in self.arrs])
 
     def with_at(self, i, v):
         cs = pack(self.elem, v)
@@ -234,10 +261,28 @@ class MatV:
         self.arr, self.rows, self.cols = arr, rows, cols
 
     def at(self, i, j):
-        return z3.Select(z3.Select(self.arr, i), j)
+        return sel(self.arr, i, j)
 
     def __repr__(self):
         return f"MatV({self.rows}x{self.cols})"
+
+
+class CMatV:
+    __slots__ = ("re", "im")
+
+    def __init__(self, re: "MatV", im: "MatV"):
+        self.re, self.im = re, im
+
+    @property
+    def rows(self):
+        return self.re.rows
+
+    @property
+    def cols(self):
+        return self.re.cols
+
+    def __repr__(self):
+        return f"CMatV({self.re.rows}x{self.re.cols})"
 
 
 class OpaqueV:
@@ -362,6 +407,10 @@ def pack(t: T, v):
         if isinstance(v, MatV):
             return [v.arr, v.rows, v.cols]
         raise TypeError(f"not a matrix: {v!r}")
+    if t is CMat:
+        if isinstance(v, CMatV):
+            return [v.re.arr, v.re.rows, v.re.cols, v.im.arr, v.im.rows, v.im.cols]
+        raise TypeError(f"not a complex matrix: {v!r}")
     raise TypeError(f"cannot pack type {t}")
 
 
@@ -389,6 +438,8 @@ def unpack(t: T, cs):
         return MapV(t.key, t.val, cs[0], cs[1:1 + nv], keys)
     if t is Mat:
         return MatV(cs[0], cs[1], cs[2])
+    if t is CMat:
+        return CMatV(MatV(cs[0], cs[1], cs[2]), MatV(cs[3], cs[4], cs[5]))
     raise TypeError(f"cannot unpack type {t}")
 
 
@@ -465,6 +516,8 @@ def type_of(v) -> T | None:
         return MapT(v.key, v.val, v.keys is not None)
     if isinstance(v, MatV):
         return Mat
+    if isinstance(v, CMatV):
+        return CMat
     if isinstance(v, tuple):
         ts = [type_of(x) for x in v]
         return TupT(*ts) if all(t is not None for t in ts) else None
